@@ -26,7 +26,7 @@ BUDGET = {
 REQUIRED_PROBES = ["multi_page", "empty_middle_page", "fault_between_pages", "request_reused", "reuse_during",
                    "cancelled_mid_iteration", "nonpaged_method", "map_paged", "scalar_paged", "concurrent_pagers",
                    "nonretryable_between_pages", "explicit_options_multi_page", "async_multi_page", "pages_consumed", "rest_fetch",
-                   "rest_multi_page"]
+                   "rest_multi_page", "repeated_cursor_value"]
 ASSUMPTIONS = ["corners excluded from the grammar: both page_size and max_results in one request; wrapper-typed "
                "page_size; streaming RPCs with paging-shaped messages (DESIGN.md section 3)"]
 
@@ -116,6 +116,8 @@ def gen_pages(rng, codec, spec, m, cls, oid, npages=None):
     from ..rng import deep
     npages = npages or rng.choice([1, 2, 3, 4, 5, 6, 8] if deep() else [1, 1, 2, 2, 3, 3, 4, 5])
     pages = []
+    dup_token = npages >= 3 and rng.random() < 0.12
+    dup_at = rng.randint(1, max(1, npages - 2))
     counter = [rng.randint(1, 1000) * 1000]
     for i in range(npages):
         k = rng.choice([0, 1, 1, 2, 3]) if npages > 1 else rng.choice([0, 1, 2, 3])
@@ -143,6 +145,8 @@ def gen_pages(rng, codec, spec, m, cls, oid, npages=None):
             elif g["type"] == "string":
                 page[g["name"]] = f"attr-{oid}.p{i}"
         tok = f"tok-{oid}-{i}" if i < npages - 1 else ""
+        if tok and i >= 1 and dup_token and i == dup_at:
+            tok = pages[-1]["next_page_token"]          # the same opaque cursor twice in a row (legal: tokens are opaque)
         if tok:
             page["next_page_token"] = tok
         pages.append(page)
@@ -347,11 +351,14 @@ def server_factory(run):
         else:
             req = codec.parse(m["input"], bytes.fromhex(call["reqs"][0]))
             tok = getattr(req, "page_token", "")
-        st = state.setdefault(op["id"], {"tries": {}, "served": {}})
-        index = {(op["request"].get("page_token") or ""): 0}
-        for i, p in enumerate(op["pages"][:-1]):
-            index.setdefault(p["next_page_token"], i + 1)
-        i = index.get(tok)
+        st = state.setdefault(op["id"], {"tries": {}, "served": {}, "next": 0})
+        toks = [(op["request"].get("page_token") or "")] + [p["next_page_token"] for p in op["pages"][:-1]]
+        if len(set(toks)) < len(toks):
+            # repeated cursor values: the server is stateful (serves its history in order) and only checks
+            # that the client presents the token it was handed
+            i = st["next"] if st["next"] < len(toks) and toks[st["next"]] == tok else None
+        else:
+            i = toks.index(tok) if tok in toks else None
         if i is None:
             run.sim.ev("server_unknown_token", op=op["id"], token=tok)
             return {"code": "INVALID_ARGUMENT"}
@@ -361,6 +368,7 @@ def server_factory(run):
             o = script[st["tries"][i] - 1]
             return {"lat": op.get("lat", 0.0), "code": o["code"]}
         st["served"][i] = st["served"].get(i, 0) + 1
+        st["next"] = i + 1
         if st["served"][i] > 1:
             run.sim.ev("server_refetch", op=op["id"], page=i)
             return {"code": "FAILED_PRECONDITION"}
@@ -625,6 +633,9 @@ def judge_op(spec, codec, scenario, op, evs, probes):
         n_obs = len(obs)
         full = len(flat)
         exp_before_error = sum(len(p) for p in exp_items[:fetched])
+    tl = [p.get("next_page_token", "") for p in pages[:-1]]
+    if len(set(tl)) < len(tl):
+        _bump(probes, "repeated_cursor_value")
     if len(pages) >= 2 and fetched >= 2:
         _bump(probes, "multi_page")
         if is_async:
